@@ -216,7 +216,8 @@ fn document_expectation(doc: &str) -> Vec<(String, Vec<(String, usize, usize)>)>
             Some("TextSelector") => {
                 let res = t.get("resource").and_then(|x| x.as_str());
                 let cur = |k: &str| t.get("offset").and_then(|o| o.get(k)).and_then(|c| if c.get("@type").and_then(|x| x.as_str()) == Some("BeginAlignedCursor") { c.get("value").and_then(|x| x.as_u64()) } else { None });
-                match (res, cur("begin"), cur("end")) { (Some(r), Some(b), Some(e)) => { out.push((r.to_string(), b as usize, e as usize)); true } _ => false }
+                // (a resource named by a temporary identifier `!R<n>` designates a handle, not a name: no expectation)
+                match (res, cur("begin"), cur("end")) { (Some(r), Some(b), Some(e)) if !r.starts_with('!') => { out.push((r.to_string(), b as usize, e as usize)); true } _ => false }
             }
             Some("MultiSelector") | Some("CompositeSelector") | Some("DirectionalSelector") => t.get("selectors").and_then(|x| x.as_array()).map(|a| a.iter().all(|s| collect(s, out))).unwrap_or(false),
             _ => false,
